@@ -569,11 +569,14 @@ pub fn report_violations(opts: &RunOpts, s: &mut Summary) -> usize {
         let path = write_replay(&rf);
         // fresh-process replay must reproduce, else this is a harness fault (exit 2)
         let exe = std::env::current_exe().unwrap();
-        let st = std::process::Command::new(exe)
-            .arg("replay")
-            .arg(&path)
-            .arg("--quiet")
-            .status();
+        let mut st = std::process::Command::new(&exe).arg("replay").arg(&path).arg("--quiet").status();
+        for _ in 0..2 {
+            if matches!(&st, Ok(s) if s.code() == Some(1)) {
+                break;
+            }
+            // one retry: a replay can be disturbed by the same OS stalls as a run (C15)
+            st = std::process::Command::new(&exe).arg("replay").arg(&path).arg("--quiet").status();
+        }
         match st {
             Ok(st) if st.code() == Some(1) => {}
             other => {
